@@ -167,6 +167,21 @@ class Mux:
         if kind == "stats":
             for ov in self.overlays:
                 self.endpoint.enable_community_statistics(ov.get_prefix(), True)
+        # peer graph state that earlier, valid traffic leaves behind: two strangers behind routers with the same defaults
+        # (different WAN addresses, the SAME announced LAN address, never heard from again) and a peer at a source address
+        from ipv8.messaging.interfaces.udp.endpoint import UDPv4Address, UDPv4LANAddress
+        from .. import keypool
+        seen_nets = set()
+        for ov in self.overlays:
+            net = getattr(ov, "network", None)
+            if net is None or id(net) in seen_nets:
+                continue
+            seen_nets.add(id(net))
+            for i in (1, 2):
+                p = Peer(keypool.key(40 + i).pub().key_to_bin(), UDPv4Address("7.0.0.%d" % i, 7000 + i))
+                p.add_address(UDPv4LANAddress(*SHARED_LAN))
+                net.add_verified_peer(p)
+            net.add_verified_peer(Peer(keypool.key(43).pub().key_to_bin(), UDPv4Address(*SOURCES[0])))
         self.prefixes = {}
         for l in self.listeners:
             p = l.get_prefix() if hasattr(l, "get_prefix") else l.prefix
@@ -252,7 +267,8 @@ def collect_corpus() -> list[bytes]:
     return uniq
 
 
-SOURCES = [("1.0.0.2", 8001), ("0.0.0.0", 0), ("255.255.255.255", 65535)]
+SHARED_LAN = ("192.168.1.10", 8090)
+SOURCES = [("1.0.0.2", 8001), ("0.0.0.0", 0), ("255.255.255.255", 65535), SHARED_LAN]
 SOURCES6 = [("2001:db8::2", 8001, 0, 0), ("::", 0, 0, 0), ("::ffff:1.2.3.4", 1, 0, 0)]
 
 
